@@ -3,7 +3,7 @@ from .. import scriptprop
 
 ID = "C07"
 RULE = ("histories from NewSorted over initial slices of length 0..12 (unsorted, with duplicates, with spare capacity) then add/remove(present|absent)/removeat/index/contains/get/len/slice/input, "
-        "universe 6, less in {<, >, x/2<y/2 (ties between distinguishable values)}; out-of-range positions are part of the property (panics); non-trivial = at least 4 mutations")
+        "universe 6, less in {<, >, x/2<y/2 (ties between distinguishable values)}; out-of-range positions are part of the property (panics); deep histories: 40..300 (thorough: ..5000) elements shrunk to almost nothing and grown again; non-trivial = at least 4 mutations")
 ASSUMPTIONS = ["sort.SliceStable and sort.Search are modelled by reference implementations proved to contract"]
 
 
@@ -27,8 +27,27 @@ def history(rng, nops, uni):
     return sc
 
 
+def deep(rng, n):
+    """a large Sorted (beyond any small-capacity threshold) shrunk to a fraction of its size, then grown again"""
+    less = rng.randrange(3)
+    uni = rng.choice([8, 50, 1000])
+    k = rng.randrange(0, n + 1)
+    init = [rng.randrange(uni) for _ in range(k)]
+    sc = ["new %d [%s] %d" % (less, ",".join(map(str, init)), rng.randrange(3)), "len"]
+    sc += ["add %d" % rng.randrange(uni) for _ in range(n - k)] + ["len", "slice"]
+    m = n
+    for i in range(n - rng.randrange(0, 8)):
+        if rng.random() < 0.5: sc.append("removeat %d" % rng.randrange(m))
+        else: sc.append("removeat %d" % rng.choice([0, m - 1]))
+        m -= 1
+        if i % 25 == 0 or m < 6: sc += ["len", "slice"]
+    sc += ["add %d" % rng.randrange(uni) for _ in range(5)] + ["slice", "len", "input"]
+    return sc
+
+
 def explore(core, rng, tier, seed, search=False):
     n, nops = (400, 40) if tier == "quick" else (10000, 120)
     scripts = [history(rng, nops, 6 if i % 3 else 12) for i in range(n)]
+    scripts += [deep(rng, rng.choice([40, 130, 140, 300] if tier == "quick" else [130, 300, 1100, 5000])) for _ in range(8 if tier == "quick" else 60)]
     nt = lambda sc: sum(1 for l in sc if l.startswith(("add", "remove"))) >= 4
     return scriptprop.explore(core, ID, scripts, nontrivial=nt)
